@@ -5,9 +5,11 @@ Vocabulary: `fmtExp` / `PModel.text` (`Rooc/Syntax/Format.lean`) is the executab
 behind `RoocParser::format`, diffed byte-for-byte against the real formatter on every run; `fmtToks` is the
 same printer as tokens (the driver checks on every case that lexing `fmtExp e` gives `fmtToks e`);
 `parseToks` is the parser model of C09.
-The theorems are about the expression sub-language (the objective, both sides of every constraint,
-constant values and domain bounds are such expressions); the program skeleton, declarations, blocks and
-iterations are covered by the correspondence run and the implementation-side re-parse only.
+The token-level theorems cover THE PRINTABLE FRAGMENT — a decidable predicate (`printable` = `coreProgram`,
+`coreExp`) that the generator is measured against: whole programs with `for` iterations over ranges / sets / tuples,
+`sum`/`prod`/`min`/`max`/… scoped blocks, block functions, compound variables, array accesses, integer arrays,
+strings, `where` constants, `define` declarations with compound names and every variable type, named constraints.
+The text-level theorems (lexer included) cover the expression sub-language of C09.
 -/
 import Lean
 import Rooc.Proofs.Format
@@ -22,18 +24,25 @@ theorem printer_table_documented (o : BinOp) :
     Gen.binPrec o = docLevel o ∧ Gen.binLeftAssoc o = !(docRightAssoc o) :=
   ⟨prec_documented o, assoc_documented o⟩
 
-/-- **`parse (format t) = t`** for EVERY tree of the sub-language: the printer emits every parenthesis the
-grammar needs. -/
-theorem parse_format (t : PExp) (h : WF t) : parseToks (fmtToks t) = .ok t := by
+/-- **`parse (format t) = t`** for EVERY tree of the printable fragment (`WFx`: the fragment without the lexical
+conditions on names): the printer emits every parenthesis, brace and bracket the grammar needs. -/
+theorem parse_format (t : PExp) (h : WFx t) : parseToks (fmtToks t) = .ok t := by
   obtain ⟨items, hk, _⟩ := fmt_tk t h
   exact parse_tk hk
+
+/-- the same for the DECIDABLE fragment predicate `coreExp` the generator is measured against -/
+theorem parse_format_printable_exp (t : PExp) (h : coreExp t = true) : parseToks (fmtToks t) = .ok t :=
+  parse_format t (coreExp_wf t h)
+
+/-- the expression sub-language of C09 (`WF`) is part of the fragment -/
+theorem parse_format_core (t : PExp) (h : WF t) : parseToks (fmtToks t) = .ok t := parse_format t (wf_wfx t h)
 
 example : WF (.bin .sub (.var "x") (.bin .sub (.var "y") (.bin .mul (.int 2) (.un .neg (.bin .add (.var "z") (.int 1)))))) := by
   simp [WF]; decide
 
 /-- **Formatting is idempotent**: the formatted tokens parse, and what they parse to is formatted as the
 same tokens. -/
-theorem format_idem (t : PExp) (h : WF t) :
+theorem format_idem (t : PExp) (h : WFx t) :
     ∃ t', parseToks (fmtToks t) = .ok t' ∧ fmtToks t' = fmtToks t :=
   ⟨t, parse_format t h, rfl⟩
 
@@ -67,48 +76,80 @@ theorem printed_text_tokens (t : PExp) (ht : TextOK t) : lex (fmtExp t).toList =
 
 /-- `parse (format t) = t` on the text -/
 theorem parse_format_text (t : PExp) (h : WF t) (ht : TextOK t) : parseText (fmtExp t).toList = .ok t := by
-  simp only [parseText, lex_fmtExp t ht, parse_format t h]
+  simp only [parseText, lex_fmtExp t ht, parse_format_core t h]
 
 /-- the formatted TEXT of every tree parses, and the tree it parses to is formatted as the same TEXT -/
 theorem format_idem_text (t : PExp) (h : WF t) (ht : TextOK t) :
     ∃ t', parseText (fmtExp t).toList = .ok t' ∧ fmtExp t' = fmtExp t :=
   ⟨t, parse_format_text t h ht, rfl⟩
 
-/-! ### whole programs (fragment without iterations: objective, named / compared / asserted constraints, `where`
-constants, `define` declarations with no or two-sided bounds)
+/-! ### whole programs of the printable fragment
 
-`parseProgram` is the program-level parser model (`Rooc/Syntax/Program.lean`, diffed against `RoocParser::parse`
-on generated programs and their formatted texts), `progToks` the token-level twin of `PModel.text`
-(= `RoocParser::format`); the driver checks on every program of the fragment that lexing the printed text gives
-`progToks`. -/
+`parseProgram` is the program-level parser model (`Rooc/Syntax/Program.lean`: PEG phase, then the AST builders
+with their errors; diffed against `RoocParser::parse` on generated programs, their formatted texts and malformed
+texts), `progToks` the token-level twin of `PModel.text` (= `RoocParser::format`); the driver checks on every
+program of the fragment that lexing the printed text gives `progToks`. -/
 
-/-- **`parse (format program) = program`** for every program of the fragment -/
-theorem parse_format_program (m : PModel) (h : WFp m) : parseProgram (progToks m) = .ok m :=
+/-- **`parse (format p) = p`** for every program `p` of the printable fragment, the fragment being the DECIDABLE
+predicate `printable` (`coreProgram`, Rooc/Syntax/ProgramToks.lean) that the generator is measured against -/
+theorem parse_format_program (m : PModel) (h : printable m = true) : parseProgram (progToks m) = .ok m :=
+  parse_format_printable m h
+
+/-- the same for the fragment without the lexical conditions on names (`WFpx`) -/
+theorem parse_format_program_wf (m : PModel) (h : WFpx m) : parseProgram (progToks m) = .ok m :=
   parseProgram_fmt m h
 
 /-- the formatted program parses and is formatted as itself again -/
-theorem format_idem_program (m : PModel) (h : WFp m) :
+theorem format_idem_program (m : PModel) (h : printable m = true) :
     ∃ m', parseProgram (progToks m) = .ok m' ∧ progToks m' = progToks m :=
-  ⟨m, parseProgram_fmt m h, rfl⟩
+  ⟨m, parse_format_printable m h, rfl⟩
 
-/-- non-vacuity: `max x - (y - 2) s.t. c1: x <= 3  /  x and y  where let k = 2 define x, y as Real(0, k) / z as Boolean` -/
-example : WFp (PModel.mk .max (.bin .sub (.var "x") (.bin .sub (.var "y") (.int 2)))
-    [PConstraint.mk (some (.plain "c1")) (.var "x") .le (.int 3) false [] [],
-     PConstraint.mk none (.bin .and (.var "x") (.var "y")) .eq (.bool true) true [] []]
-    [("k", .int 2)]
-    [PDomain.mk [.plain "x", .plain "y"] (.real (some (.int 0)) (some (.var "k"))) [] [],
-     PDomain.mk [.plain "z"] .boolean [] []]) := by
-  refine ⟨?_, ?_, ?_, ?_, Or.inl (by simp)⟩
-  · simp [WF]; decide
-  · intro c hc
-    simp only [List.mem_cons, List.mem_nil_iff, or_false] at hc
-    rcases hc with rfl | rfl <;> simp [WFc, WF] <;> decide
-  · intro k hk
-    simp only [List.mem_cons, List.mem_nil_iff, or_false] at hk
-    subst hk; simp [WF]; decide
-  · intro d hd
-    simp only [List.mem_cons, List.mem_nil_iff, or_false] at hd
-    rcases hd with rfl | rfl <;> simp [WFd, WFt, WF, plainName] <;> decide
+/-- both phases of the parser on a printed program: the PEG reading, then the AST builders without an error -/
+theorem parse_format_phases (m : PModel) (h : printable m = true) :
+    parseProgramRaw (progToks m) = .ok (rawOf m) ∧ buildProgram (rawOf m) = .ok m :=
+  ⟨parseProgramRaw_fmt m (coreProgram_wf m h), buildProgram_raw m (coreProgram_wf m h)⟩
+
+/-- **A comparison chain is not a constraint**: `a <= b <= c` (any two comparisons) makes the program invalid
+instead of being read as one of the two possible conjunctions. -/
+theorem comparison_chain_is_rejected {a b c : PExp} (ha : WFx a) (hb : WFx b) (hc : WFx c) (c1 c2 : Cmp) :
+    parseProgram (.word "solve" :: .nl :: .st :: .nl ::
+      (fmtToks a ++ cmpTok c1 :: (fmtToks b ++ cmpTok c2 :: (fmtToks c ++ [.nl])))) = .error .reject :=
+  comparison_chain_rejected ha hb hc c1 c2
+
+/-- non-vacuity: the program
+`max sum(i in 0..n) { c[i] * x_i } - min { y, 2 }  s.t.  cap_i: x_i + x_{i + 1} <= 3 for i in 0..=n, (u, v) in edges(G)  /
+x_0 and y  where let n = 2  let c = [1, 2, 3]  define x_i as IntegerRange(0, 10) for i in 0..3 / y, z as Boolean`
+is in the printable fragment -/
+def sampleProgram : PModel :=
+  PModel.mk .max
+    (.bin .sub (.scoped "sum" [.single "i"] [.call "range" [.int 0, .var "n", .bool false]]
+        (.bin .mul (.access "c" [.var "i"]) (.cvar "x" [.var "i"])))
+      (.block "min" [.var "y", .int 2]))
+    [PConstraint.mk (some (.compound "cap" [.var "i"])) (.bin .add (.cvar "x" [.var "i"]) (.cvar "x" [.bin .add (.var "i") (.int 1)]))
+        .le (.int 3) false [.single "i", .tuple ["u", "v"]]
+        [.call "range" [.int 0, .var "n", .bool true], .call "edges" [.var "G"]],
+     PConstraint.mk none (.bin .and (.cvar "x" [.int 0]) (.var "y")) .eq (.bool true) true [] []]
+    [("n", .int 2), ("c", .prim "[1, 2, 3]")]
+    [PDomain.mk [.compound "x" [.var "i"]] (.intRange (.int 0) (.int 10)) [.single "i"] [.call "range" [.int 0, .int 3, .bool false]],
+     PDomain.mk [.plain "y", .plain "z"] .boolean [] []]
+
+theorem sample_array_printable : coreExp (.prim "[1, 2, 3]") = true := by
+  have h1 : intArrayOf "[1, 2, 3]" = some [1, 2, 3] := by decide
+  have h2 : natDigits 1 = ['1'] := by rw [natDigits]; simp; decide
+  have h3 : natDigits 2 = ['2'] := by rw [natDigits]; simp; decide
+  have h4 : natDigits 3 = ['3'] := by rw [natDigits]; simp; decide
+  simp only [coreExp, h1, List.map, h2, h3, h4]
+  decide
+
+theorem sample_printable : printable sampleProgram = true := by
+  simp [printable, coreProgram, sampleProgram, coreExp, coreList, coreIdx, coreIters, coreIter, coreFor, coreName,
+    coreType, printableIterVar, notForHead, constraintToks, domainToks, cnameToks, fmtToks, varListToks, sample_array_printable,
+    isRangeSugar, printsParen, forToks, binKwTok, blockKindErr, i64Max, Gen.scopedKinds, Gen.blockKinds, Gen.blockArity]
+  decide
+
+/-- … and so the round trip holds for it -/
+theorem sample_round_trip : parseProgram (progToks sampleProgram) = .ok sampleProgram :=
+  parse_format_program sampleProgram sample_printable
 
 /-! ### regression examples for the defects repaired in 6b01e1a / b4e2d1a / 8bf5921 -/
 
